@@ -121,7 +121,10 @@ pub fn main_c18(tier: &str, seed: u64, replay: Option<&str>) -> i32 {
         };
     }
     let n = if tier == "thorough" { 60_000 } else { 1_200 };
-    let results = crate::par_map(n, &|i| check_case(&gen_case(seed, i), None));
+    let results = crate::par_map(n, &|i| {
+        let case = gen_case(seed, i);
+        on_fresh_thread(mix(seed, &[tag("C18-hash"), i as u64]), move || check_case(&case, None))
+    });
     let known = load_known();
     let mut exit = 0;
     let mut reported: BTreeSet<String> = BTreeSet::new();
